@@ -79,6 +79,9 @@ type EncSpec struct {
 	// RetrievalURI / RetrievalType override the RetrievalMethod that points at a detached EncryptedKey
 	// (default URI "#ek", no Type); EKId, when set, is written as Id attribute on the EncryptedKey.
 	RetrievalURI, RetrievalType, EKId *string
+	// SymLen, when > 0, makes the wrapped content key that many bytes long (the data is then encrypted under a
+	// key of the proper length that nobody can recover: a sender error, or a probe).
+	SymLen int
 }
 
 func (e *EncSpec) String() string {
@@ -196,6 +199,10 @@ func EncryptedAssertionXML(spec *EncSpec, plaintext []byte, dataCT, keyCT *[]byt
 	if keyCT != nil {
 		wrapped = *keyCT
 	} else {
+		if spec.SymLen > 0 {
+			sym = make([]byte, spec.SymLen)
+			rand.Read(sym)
+		}
 		wrapped, err = WrapKey(spec.To, spec.KeyAlg, spec.Digest, sym)
 		if err != nil {
 			return "", err
